@@ -3,6 +3,6 @@ CONSTANTS
  Peers = {1, 2, 3}
  MaxSends = 6
  MaxCancels = 2
- Dev = {"no_push_back"}
+ Dev = {"dup_on_rejoin"}
 INVARIANT Refines
 CHECK_DEADLOCK FALSE
